@@ -212,7 +212,7 @@ func init() {
 		return t.e.ts.Bool(types.ConvertibleTo(r.t, tt.v.(*RType).t))
 	}
 	noop := func(t *Thread, fn *ssa.Function, args []Value, pos token.Pos) Value { return nil }
-	for _, n := range []string{"log.Printf", "log.Println", "log.Print", "runtime.Gosched", "runtime.KeepAlive"} {
+	for _, n := range []string{"log.Printf", "log.Println", "log.Print", "runtime.Gosched", "runtime.KeepAlive", "runtime.SetFinalizer"} {
 		stubs[n] = noop
 	}
 	bitsLen := func(t *Thread, fn *ssa.Function, args []Value, pos token.Pos) Value {
